@@ -7,8 +7,9 @@ import vlib
 pid = sys.argv[1]; tier = sys.argv[2] if len(sys.argv) > 2 else "quick"; seed = int(sys.argv[3]) if len(sys.argv) > 3 else 1
 P = importlib.import_module(pid)
 ok, out = vlib.coq_make(["Run.vo"]); assert ok, out[-2000:]
-ok, out = vlib.build_harness("debug"); assert ok, out[-2000:]
 rng = random.Random(seed)
+if hasattr(P, "pre_build"): P.pre_build(rng, tier)
+ok, out = vlib.build_harness("debug"); assert ok, out[-2000:]
 cases = list(P.corpus()) + list(P.generate(rng, tier))
 lines = [P.harness_line(c) for c in cases]
 impl = vlib.run_harness(lines, "debug")
